@@ -56,3 +56,8 @@ package ast
 //@   requires sync.held(&defaultTimezoneMu) == 0
 //@   guard write defaultTimezone: sync.held(&defaultTimezoneMu) == 2
 //@   ensures sync.held(&defaultTimezoneMu) == 0
+
+// Printing is a deterministic function of the term (injectivity is NOT assumed).
+//@ func (a Atom) String()
+//@   pure
+//@   trusted
